@@ -153,6 +153,10 @@ func c03Cases(tier string, seed int64) []core.Case {
 			}})
 		}
 	}
+	for _, dotu := range []bool{true, false} {
+		dotu := dotu
+		cases = append(cases, core.Case{ID: fmt.Sprintf("tag-reused-while-finishing/dotu=%v", dotu), Run: func(ctx *core.Ctx) core.Result { return c03TagReusedWhileFinishing(ctx, dotu) }})
+	}
 	for _, ms := range []uint32{256, 1024, 8192} {
 		ms := ms
 		cases = append(cases, core.Case{ID: fmt.Sprintf("held-payload/msize=%d", ms), Run: func(ctx *core.Ctx) core.Result {
@@ -1278,5 +1282,96 @@ func c03HeldPayload(ctx *core.Ctx, dotu bool, msize uint32) core.Result {
 		res.Sig(fmt.Sprintf("held-payload|%v|%d|%d|%d", dotu, msize, nheld, round%3))
 	}
 	res.Sample(map[string]interface{}{"scenario": "writes held while the receive buffer is used up many times", "msize": msize, "dotu": dotu})
+	return res
+}
+
+// c03TagReusedWhileFinishing: the client has the reply and uses the tag again while the goroutine that answered is
+// still between handing the reply to the writer and taking the request off the connection's table (parked there).
+// The new request is a request like any other: executed and answered exactly once, with its own content.
+func c03TagReusedWhileFinishing(ctx *core.Ctx, dotu bool) core.Result {
+	var res core.Result
+	s := NewSess(Config{Dotu: dotu, Msize: 8192, TracePoints: true})
+	c := s.Dial()
+	defer func() {
+		s.Ctl.ReleaseAll()
+		c.Hangup()
+	}()
+	ver := "9P2000"
+	if dotu {
+		ver = "9P2000.u"
+	}
+	if r, err := c.Version(8192, ver, W); err != nil || r.Msg == nil {
+		res.Inconclusive = "c03: version failed"
+		return res
+	}
+	if r, err := c.Rpc(&wire.Msg{Type: wire.Tattach, Tag: 1, Fid: 1, Afid: wire.NOFID, Uname: "root", Nuname: 0}, W); err != nil || r.Msg == nil || r.Msg.Type != wire.Rattach {
+		res.Inconclusive = "c03: attach failed"
+		return res
+	}
+	tag := uint16(10)
+	for _, pt := range []string{"respond.queued", "respond.posted", "respond.claimed", "respond.enter"} {
+		for rep := 0; rep < 3 && len(res.Violations) == 0; rep++ {
+			ctx.Beat()
+			tag++
+			first := &wire.Msg{Type: wire.Tstat, Fid: 1, Tag: tag}
+			h := s.Ctl.HoldAt(pt, c.ID, int(tag), sched.AnyTag, 20*time.Second)
+			_ = c.Send(first)
+			parked := h.WaitReached(2 * time.Second)
+			// the reply is on the wire only from respond.queued on; at the earlier points the tag is still
+			// outstanding for the client and it must not reuse it: there the second request simply waits its turn
+			gotFirst := false
+			if pt == "respond.queued" {
+				if r1, err := c.WaitTag(tag, 2*time.Second); err == nil && r1.Msg != nil {
+					gotFirst = true
+				}
+			}
+			det := map[string]interface{}{"parked_at": pt, "dotu": dotu, "first_reply_seen_before_reuse": gotFirst}
+			res.Evals++
+			if !parked || (pt == "respond.queued" && !gotFirst) {
+				res.Count("tag_reuse_orderings_infeasible", 1)
+				h.Release()
+				c.WaitTag(tag, W)
+				c.Quiesce(W)
+				continue
+			}
+			if pt != "respond.queued" {
+				// not a legal client behaviour here: nothing to judge at this point
+				h.Release()
+				c.WaitTag(tag, W)
+				c.Quiesce(W)
+				continue
+			}
+			second := &wire.Msg{Type: wire.Twalk, Fid: 1, Newfid: uint32(100 + int(tag)), Tag: tag}
+			seq0 := s.Log.Seq()
+			_ = c.Send(second)
+			s.Ctl.WaitPassed("recv.dispatch", c.ID, int(tag), 2, 2*time.Second)
+			time.Sleep(300 * time.Microsecond)
+			h.Release()
+			r2, err := c.WaitTag(tag, W)
+			if err != nil || r2.Msg == nil {
+				res.Violate("C03;missing-reply;tag-reused-while-finishing", "a request whose tag had just been answered (the reply was on the wire, the server still finishing its bookkeeping) was never executed or answered", det)
+				return res
+			}
+			if r2.Msg.Type != wire.Rwalk {
+				res.Violate("C03;wrong-type;tag-reused-while-finishing", "the second request under the tag was answered with "+r2.Msg.String(), det)
+			}
+			c.Quiesce(W)
+			n := 0
+			for _, ev := range s.Log.Snapshot(seq0) {
+				if ev.Kind == "op" && ev.Conn == c.ID && ev.Tag == tag {
+					n++
+				}
+			}
+			if n != 1 {
+				res.Violate("C03;invocations;tag-reused-while-finishing", fmt.Sprintf("the second request under the tag was handed to the implementation %d times", n), det)
+			}
+			if extra, err := c.WaitTag(tag, 5*time.Millisecond); err == nil && extra != nil && extra.Msg != nil {
+				res.Violate("C03;extra-reply;tag-reused-while-finishing", "a third frame under the tag: "+extra.Msg.String(), det)
+			}
+			c.Rpc(&wire.Msg{Type: wire.Tclunk, Tag: tag + 1000, Fid: second.Newfid}, W)
+			res.Sig(fmt.Sprintf("tag-reused-while-finishing|%s|%v", pt, dotu))
+			res.Count("tag_reuse_orderings_arranged", 1)
+		}
+	}
 	return res
 }
